@@ -610,7 +610,14 @@ class Body:
                     continue
                 l = d[0]
                 f.pop(l, None)
-                if r['k'] == 'agg' and r.get('var') in self._VARIDX:
+                if r['k'] == 'agg' and r.get('var') == 'Ready' and r.get('ops') and 'p' in r['ops'][0] and len(r['ops'][0]['p']) == 1 \
+                        and isinstance(f.get(r['ops'][0]['p'][0]), int):
+                    # Poll::Ready(result of a spliced async helper): remember the variant of the payload
+                    f[l] = ('rdy', f[r['ops'][0]['p'][0]])
+                elif r['k'] == 'use' and 'p' in r['o'] and len(r['o']['p']) > 1 and isinstance(f.get(r['o']['p'][0]), tuple) \
+                        and f[r['o']['p'][0]][0] == 'rdy' and all(isinstance(p_, str) and (p_.startswith('@Ready') or p_.endswith('::0')) for p_ in r['o']['p'][1:]):
+                    f[l] = f[r['o']['p'][0]][1]
+                elif r['k'] == 'agg' and r.get('var') in self._VARIDX:
                     f[l] = self._VARIDX[r['var']]
                 elif r['k'] == 'agg' and r.get('var') and r.get('adt') in self.prog.adts:
                     # a crate-defined enum (a small step / verdict type handed between two phases of a function)
@@ -991,7 +998,25 @@ class Expr:
                     # (poll(Pin(&mut awaitee)) as Ready).0  ==  awaitee.await
                     e = Expr('await', _awaitee(body, e.a.b[0], depth), e.a.c)
                 else:
-                    e = Expr('field', e, p[1:])
+                    # projecting a field out of an aggregate whose construction is visible gives the operand it was built
+                    # from (a small struct / tuple carrying values between two phases, the Ready(..) of a spliced async helper)
+                    ag = e
+                    while ag.k in ('let', 'try'):
+                        ag = ag.c if ag.k == 'let' else ag.a
+                    if ag.k == 'downcast' and ag.a.k in ('agg', 'let'):
+                        inner_ag = ag.a
+                        while inner_ag.k == 'let':
+                            inner_ag = inner_ag.c
+                        if inner_ag.k == 'agg' and isinstance(inner_ag.a, str) and inner_ag.a.endswith('::' + str(ag.b)):
+                            ag = inner_ag
+                    fname = p[1:].rsplit('::', 1)[-1]
+                    picked = None
+                    if ag.k == 'agg' and isinstance(ag.b, list):
+                        if ag.c and fname in ag.c and len(ag.c) == len(ag.b):
+                            picked = ag.b[ag.c.index(fname)]
+                        elif ag.d == 'tuple' and fname.isdigit() and int(fname) < len(ag.b):
+                            picked = ag.b[int(fname)]
+                    e = picked if picked is not None else Expr('field', e, p[1:])
             elif p.startswith('['):
                 e = Expr('index', e, p)
             elif p.startswith('@'):
